@@ -219,6 +219,59 @@ func init() {
 				}
 				c09Run(x, prog)
 			}},
+			{Name: "date-picture-chaos", Quick: []int{0, 1, 2, 3}, Thorough: []int{0, 1, 2, 3, 4}, Run: func(c *explore.Chooser, x *explore.Ctx, size int) {
+				units := []string{"[", "]", "Y", "M01", "D1o", "d", "F", "W", "H", "h", "P", "m", "s", "f001", "Z", "z", "C", "E", " ", ",", "-", "*", "x", "1", "Nn", "[[", "]]", "\n"}
+				var sb strings.Builder
+				for i := 0; i < size; i++ {
+					sb.WriteString(units[c.Choose(len(units))])
+				}
+				form := c.Choose(4)
+				c.Done()
+				pic := strings.Replace(sb.String(), "\n", "\\n", -1)
+				var prog string
+				switch form {
+				case 0:
+					prog = `$fromMillis(1521801216617, "` + pic + `")`
+				case 1:
+					prog = `$fromMillis(-1, "[` + pic + `]", "-0530")`
+				case 2:
+					prog = `$toMillis("2018-03-23", "` + pic + `")`
+				default:
+					prog = `$fromMillis(0, "[Y]", "` + pic + `")`
+				}
+				c09Run(x, prog)
+			}},
+			{Name: "number-picture-chaos", Quick: []int{0, 1, 2, 3, 4}, Thorough: []int{0, 1, 2, 3, 4, 5}, Run: func(c *explore.Chooser, x *explore.Ctx, size int) {
+				units := []string{"0", "#", ",", ".", ";", "%", "‰", "e", "x", "-", " ", "9"}
+				var sb strings.Builder
+				for i := 0; i < size; i++ {
+					sb.WriteString(units[c.Choose(len(units))])
+				}
+				v := []string{"0", "-1", "1234.5678", "0.00012", "1e21", "1e-7"}[c.Choose(6)]
+				c.Done()
+				c09Run(x, `$formatNumber(`+v+`, "`+sb.String()+`")`)
+			}},
+			{Name: "string-arg-chaos", Quick: []int{1}, Run: func(c *explore.Chooser, x *explore.Ctx, _ int) {
+				// type-directed: string functions with the edge strings/numbers of their grammars
+				strs := []string{`""`, `"a"`, `"é😀"`, `"a b"`, `"%"`, `"%zz"`, `"$1$0"`, `"$"`, `"$99999999999999999999"`, `"====" `, `"YQ"`, `"\\"`, `"\ud83d\ude00"`}
+				nums := []string{"0", "1", "-1", "2", "-8", "8", "0.5", "-1.5", "36", "37", "1.4"}
+				shapes := []string{
+					"$substring(S, N, M)", "$pad(S, N, T)", "$split(S, T, N)", "$replace(S, T, S, N)", "$replace(S, /(a)|(é)/, T, N)", "$match(S, /a*|(é)/, N)",
+					"$split(S, /a*/, N)", "$join([S, T], S)", "$formatBase(N, M)", "$round(N, M)", "$power(N, M)", "$base64decode(S)", "$decodeUrl(S)",
+					"$decodeUrlComponent(S)", "$encodeUrl(S)", "$number(S)", "$formatNumber(N, S)", "$formatNumber(N, \"#,##0.00\", {S: T})", "$toMillis(S)",
+					"$toMillis(S, T)", "$fromMillis(N, S, T)", "$contains(S, T)", "$substringBefore(S, T)", "$substringAfter(S, T)", "$lookup({S: N}, T)",
+					"$replace(S, function($s){{\"match\": T, \"start\": N, \"end\": M, \"groups\": [], \"next\": function(){nothing}}}, T)",
+					"$split(S, function($s){{\"match\": T, \"start\": N, \"end\": M, \"groups\": [S], \"next\": function(){{\"match\": T, \"start\": M, \"end\": N, \"groups\": [], \"next\": function(){nothing}}}}})",
+				}
+				shape := shapes[c.Choose(len(shapes))]
+				S := strs[c.Choose(len(strs))]
+				T := strs[c.Choose(len(strs))]
+				N := nums[c.Choose(len(nums))]
+				M := nums[c.Choose(len(nums))]
+				c.Done()
+				r := strings.NewReplacer("S", S, "T", T, "N", N, "M", M)
+				c09Run(x, r.Replace(shape))
+			}},
 			{Name: "corpus", Quick: []int{1}, ShardDepth: 1, Run: func(c *explore.Chooser, x *explore.Ctx, _ int) {
 				progs := validCorpus()
 				p := progs[c.Choose(len(progs))]
